@@ -378,6 +378,7 @@ pub fn baseline(seed: u64, opts: &GenOpts) -> (SupplyTrace, Plan) {
         rel_link_dir: false,
         read_faults: None,
         fixed_mtime: false,
+        mtime_backwards: false,
         link_dir_style: 0,
         work_links: vec![],
         tz: None,
